@@ -255,6 +255,58 @@ void vf_harness(void) { VarT* v; Var_copy(v); VF_CANARY(); }
 )
 UNITS += [ctor_unsigned, copy_unit]
 
+# ---- Var << x (append to an array Var): x may be an element of this very array, so it is handed to Array::operator<< (which copies an aliased argument before
+# the storage can move: C01 Array_insert ALIAS variants) - it must not be read after a step that can reallocate the array
+append_unit = Unit(
+    'Var_append', 'C04',
+    cuts=[TYPES(), Cut('ap', VC, r'^Var& Var::operator<<\(const Var& x\)\s*$', members=('_type',),
+              rules=[(r'\(\*_a\) << x;', 'ARR_APPEND_X();', None), (r'NEW_ARRAY\(_a\);', 'g_newarr++;', None), (r'\(\*this\)\[length\(\)\] = x;', '{ VAR_INDEX_GROW(); X_READ(); g_appended++; }', None), (r'return \*this;', 'return;', None)])],
+    text=r'''
+#include "vf_base.h"
+@@types@@
+typedef struct VarT { int _type; } VarT;
+int g_appended, g_newarr, g_moved, g_stale_read;
+static void ARR_APPEND_X(void) { g_appended++; }                         /* Array<Var>::operator<<(x): aliasing-safe append (C01) */
+static void VAR_INDEX_GROW(void) { g_moved = 1; }                        /* Var::operator[](length()): resizes the array - the storage may move */
+static void X_READ(void) { if (g_moved) g_stale_read = 1; __CPROVER_assert(!g_moved, "x (possibly an element of this array) is not read after the array may have been reallocated"); }
+void Var_append(VarT* self)
+__CPROVER_requires(__CPROVER_is_fresh(self, sizeof(VarT)) && g_appended == 0 && g_newarr == 0 && g_moved == 0 && g_stale_read == 0)
+__CPROVER_ensures(!g_stale_read && ((__CPROVER_old(self->_type) == ARRAY || __CPROVER_old(self->_type) == NONE) ? (g_appended == 1 && self->_type == ARRAY) : g_appended == 0))
+__CPROVER_assigns(*self, g_appended, g_newarr, g_moved, g_stale_read)
+@@ap@@
+void vf_harness(void) { VarT* v; Var_append(v); VF_CANARY(); }
+''',
+    entry='Var_append', kind='proof',
+    desc='Var::operator<<(const Var&): an array (or an undefined Var, which becomes an array) gets x appended exactly once through the aliasing-safe Array append; other types are unchanged',
+    functions=['Var::operator<<(const Var&)'], trusted=['Array::operator<< copies an argument that lies inside the array before growing (C01)'],
+)
+
+# ---- Var::extend(v): every DEFINED property of v is copied - 0, false, "" and null are values; only undefined ones are skipped
+extend_unit = Unit(
+    'Var_extend_filter', 'C04',
+    cuts=[TYPES(), Cut('ex', VC, r'^Var& Var::extend\(const Var& v\)\s*$', members=('_type',),
+              rules=[(r'NEW_DIC\(_o\);', '', None), (r'foreach2\s*\(String& k, Var\s*&\s*x, \*v\._o\)', '', 1), (r'\bx\.ok\(\)', 'X_DEFINED()', None), (r'if \(x\)', 'if (X_TRUTHY())', None), (r'if \(!x\)', 'if (!X_TRUTHY())', None),
+                     (r'\(\*_o\)\[k\] = x;', 'g_copied = 1;', None), (r'return \*this;', 'return;', None)])],
+    text=r'''
+#include "vf_base.h"
+@@types@@
+typedef struct VarT { int _type; } VarT;
+enum { X_UNDEFINED, X_FALSY, X_TRUTHY_KIND }; int g_xkind, g_copied;
+static bool X_DEFINED(void) { return g_xkind != X_UNDEFINED; }              /* Var::ok(): not undefined */
+static bool X_TRUTHY(void) { return g_xkind == X_TRUTHY_KIND; }            /* operator bool: false for 0, 0.0, false, "", null and undefined */
+void Var_extend(VarT* self)
+__CPROVER_requires(__CPROVER_is_fresh(self, sizeof(VarT)) && (self->_type == NONE || self->_type == OBJ) && X_UNDEFINED <= g_xkind && g_xkind <= X_TRUTHY_KIND && g_copied == 0)
+__CPROVER_ensures(g_copied == (g_xkind != X_UNDEFINED))
+__CPROVER_assigns(*self, g_copied)
+@@ex@@
+void vf_harness(void) { VarT* v; Var_extend(v); VF_CANARY(); }
+''',
+    entry='Var_extend', kind='proof',
+    desc='Var::extend: a property of the source is copied exactly when it is defined (falsy values such as 0, false, "" and null are copied)',
+    functions=['Var::extend'], trusted=['the property loop abstracted to one representative property'],
+)
+UNITS += [append_unit, extend_unit]
+
 # replay: the units verify single operations on ghost-shaped Vars; the native counterpart is the driver's small-scope search (all string lengths 0..20 x target kinds,
 # own-child assignments for every child kind, clone independence)
 for _u in UNITS:
